@@ -114,11 +114,12 @@ package document
 // ---- adding a picture ---------------------------------------------------------------------------------------
 //@ spec imageRelType() string = "http://schemas.openxmlformats.org/officeDocument/2006/relationships/image"
 
-// imageStored(d, n, format, data, rid): what one successful addition leaves in the package, relative to the state
-// before (old counter n): part word/media/image<n><ext> is NEW and holds exactly the slice given, every other part is
-// untouched; one relationship is appended (fresh id rid, image type, target = that part relative to word/), the
-// earlier ones are untouched; the counter moved to n+1 and stays above every media number in use; the extension of the
-// part has a content type.
+// What one successful addition leaves in the package, relative to the state before (old counter n): the part
+// word/media/image<n><ext> is NEW and holds exactly the slice given, every other part is untouched; one relationship is
+// appended (an id no earlier relationship has, never rId1, image type, target = that part relative to word/), the
+// earlier ones are untouched, so pairwise different ids stay pairwise different; the counter moved to n+1 and stays
+// above every media number in use; the extension of the part has a content type.
+//@ spec docRelIDsUnique(rs []Relationship) bool = forall i int, j int :: 0 <= i && i < j && j < len(rs) ==> rs[i].ID != rs[j].ID
 
 // AddImageFromDataWithoutElement: the allocator shared by the body, table-cell and template paths.
 //@ func (*Document).AddImageFromDataWithoutElement
@@ -135,6 +136,7 @@ package document
 //@ ensures forall j int :: 0 <= j && j < old(len(d.documentRelationships.Relationships)) ==> d.documentRelationships.Relationships[j] == old(d.documentRelationships.Relationships[j])
 //@ ensures forall j int :: {old(d.documentRelationships.Relationships[j])} 0 <= j && j < old(len(d.documentRelationships.Relationships)) ==> old(d.documentRelationships.Relationships[j].ID) != result0.RelationID
 //@ ensures result0.RelationID != "rId1"
+//@ ensures old(docRelIDsUnique(d.documentRelationships.Relationships)) ==> docRelIDsUnique(d.documentRelationships.Relationships)
 //@ ensures d.documentRelationships.Relationships[old(len(d.documentRelationships.Relationships))].ID == result0.RelationID
 //@ ensures d.documentRelationships.Relationships[old(len(d.documentRelationships.Relationships))].Type == imageRelType()
 //@ ensures d.documentRelationships.Relationships[old(len(d.documentRelationships.Relationships))].Target == "media/" + imgFile(old(d.nextImageID), fmtExt(format))
@@ -142,7 +144,9 @@ package document
 //@ ensures result0.ID == itoa(old(d.nextImageID)) && result0.Format == format && result0.Width == width && result0.Height == height && result0.Data == imageData && result0.Config == config
 //@ modifies Document.nextImageID, map:string:[]byte, Relationships.Relationships, []Relationship, Document.contentTypes, ContentTypes.Defaults, []Default
 
-// AddImageFromData (body path, also the data path of AddImageFromFile): the same allocation, and the paragraph appended
+// AddImageFromData (body path, also the data path of AddImageFromFile): the same allocation (pairwise different ids stay
+// pairwise different by the three relationship clauses: earlier entries unchanged, one appended, its id unlike any
+// earlier one — the closed form docRelIDsUnique is only stated for the allocator above), and the paragraph appended
 // to the body holds a drawing that embeds exactly the new relationship id, sized by the sizing rules; every earlier
 // body element, part and relationship stays as it was.
 //@ func (*Document).AddImageFromData
